@@ -178,7 +178,7 @@ bool GeneratorImplAST::ViRecursion(Cursor iter) {
   rsText += Token::Str(TokenID::RECURSIVE, syntax);
   rsText += '{';
   OutputChild(iter, 0);
-  rsText += Token::Str(TokenID::ASSIGN);
+  rsText += Token::Str(TokenID::ASSIGN, syntax);
   OutputChild(iter, 1);
   rsText += R"( | )";
   OutputChild(iter, 2);
